@@ -8,7 +8,7 @@ Search (independent of the model): `da.store` of 1-3 source/target pairs into se
 targets with/without regions (offsets, steps >= 1, integers, unsupported negative bounds), lock
 variants, compute=False, return_stored / load_stored, optimized and unoptimized; oracle =
 NumPy slice assignment into a sentinel-filled copy.  `to_npy_stack` / `from_npy_stack` round
-trips in a temporary directory under /tmp.
+trips in temporary directories under /dev/shm (or /tmp).
 """
 from __future__ import annotations
 
@@ -26,6 +26,8 @@ from harness import gen
 from harness.core import err_name, f_ll, f_slice
 
 SENTINEL = -1
+# scratch directories: memory-backed when available (thousands of small files are created and removed per run)
+SCRATCH = "/dev/shm" if os.path.isdir("/dev/shm") and os.access("/dev/shm", os.W_OK) else "/tmp"
 
 
 class RecTarget:
@@ -48,6 +50,90 @@ class RecTarget:
     def __getitem__(self, key):
         self.rlog.append(key)
         return self.a[key]
+
+
+class FileTarget:
+    """zarr/h5py-like target: only the path travels when the object is pickled, the data lives in an
+    .npy file that every `__setitem__` opens, writes in place (memory map: disjoint writes from several
+    threads or processes do not interfere) and closes"""
+
+    def __init__(self, path, shape):
+        self.path = path
+        self.shape = tuple(shape)
+        self.dtype = np.dtype("int64")
+        self.ndim = len(self.shape)
+        np.save(path, np.full(self.shape, SENTINEL, dtype=np.int64))
+
+    def __setitem__(self, key, value):
+        if 0 in self.shape:
+            return
+        mm = np.lib.format.open_memmap(self.path, mode="r+")
+        try:
+            mm[key] = value  # shared mapping: visible to every later open without an explicit msync
+        finally:
+            del mm
+
+    def __getitem__(self, key):
+        return np.array(np.load(self.path)[key])
+
+    def read(self):
+        return np.array(np.load(self.path))
+
+
+def pickling_get(dsk, keys, **kwargs):
+    """deterministic stand-in for a serializing scheduler (distributed client, process pool): the graph
+    and the results travel by value through cloudpickle, the tasks run synchronously on the copy"""
+    import cloudpickle
+    from dask.local import get_sync
+
+    if hasattr(dsk, "__dask_graph__"):  # what dask.multiprocessing.get does with an expression
+        dsk = dsk.__dask_graph__()
+    dsk2, keys2 = cloudpickle.loads(cloudpickle.dumps((dict(dsk), keys)))
+    return cloudpickle.loads(cloudpickle.dumps(get_sync(dsk2, keys2)))
+
+
+SCHED_CTX = {
+    "default": {},
+    "threads": {"scheduler": "threads"},
+    "sync": {"scheduler": "sync"},
+    "pickling": {"scheduler": pickling_get},
+    "processes": {"scheduler": "processes", "num_workers": 2},
+}
+SERIALIZING = ("pickling", "processes")
+SCHED_KW = {None: None, "threads": "threads", "sync": "sync", "pickling": pickling_get, "processes": "processes"}
+
+
+def raw(t):
+    """current content of a target of any kind"""
+    if isinstance(t, RecTarget):
+        return t.a
+    if isinstance(t, FileTarget):
+        return t.read()
+    return t
+
+
+def pair_kind(p):
+    return p.get("target") or ("numpy" if p.get("numpy_target") else "rec")
+
+
+def store_serializes(case):
+    """True when, by the documented rules, the compute inside `da.store` runs on a serializing scheduler:
+    explicit `scheduler=` wins; otherwise the ambient one, except that a call with SOME in-memory ndarray
+    target is forced onto the local thread pool"""
+    if not case["compute"]:
+        return False  # nothing runs inside store; the harness picks the scheduler of the later compute
+    kw = case.get("sched_kw")
+    if kw is not None:
+        return kw in SERIALIZING
+    if case.get("sched_ctx", "default") not in SERIALIZING:
+        return False
+    return not any(pair_kind(p) == "numpy" for p in case["pairs"])
+
+
+def scheduler_valid(case):
+    """a serializing scheduler writes in-memory targets on a copy (documented): such programs are not
+    part of the property, only file-backed targets may be written remotely"""
+    return not (store_serializes(case) and any(pair_kind(p) != "file" for p in case["pairs"]))
 
 
 class KeyLog:
@@ -129,33 +215,135 @@ def rand_region(rng, shape, unsupported=False):
     return tuple(tshape), tuple(region)
 
 
-def gen_case(ctx):
-    rng = ctx.rng
-    npairs = rng.choice([1, 1, 1, 2, 3])
+def rand_pair(rng):
+    rank = rng.choice([1, 1, 2, 2, 3])
+    shape = tuple(0 if rng.random() < 0.04 else rng.randint(1, 6) for _ in range(rank))
+    chunks = [list(gen.rand_chunks(rng, n, zeros=0.08, maxparts=4)) for n in shape]
+    if rng.random() < 0.3:
+        tshape, region = shape, None
+    else:
+        tshape, region = rand_region(rng, shape, unsupported=rng.random() < 0.08)
+    return {"shape": list(shape), "chunks": chunks, "tshape": list(tshape), "region": enc_region(region),
+            "derived": rng.choice(["none", "none", "add", "slice", "rechunk"]),
+            "target": rng.choice(["numpy", "rec", "rec", "file"])}
+
+
+def partition_pairs(rng):
+    """2-3 sources written by ONE store call into pairwise disjoint regions of ONE target: contiguous
+    slabs (with gaps) or interleaved strides along one axis, everything on the other axes"""
+    rank = rng.choice([1, 2, 2, 3])
+    tshape = [rng.randint(3, 9) for _ in range(rank)]
+    ax = rng.randint(0, rank - 1)
+    n = tshape[ax]
+    parts = rng.randint(2, 3)
+    regs = []
+    if rng.random() < 0.5:
+        m = rng.choice([parts, parts, parts + 1])  # stride m, offsets 0..parts-1 (m > parts leaves holes)
+        for i in rng.sample(range(m), parts):
+            if i < n:
+                regs.append(slice(i, None if rng.random() < 0.5 else n, m))
+    else:
+        cuts = sorted(rng.sample(range(0, n + 1), min(n + 1, parts * 2)))
+        for i in range(0, len(cuts) - 1, 2):
+            if cuts[i] < cuts[i + 1]:
+                regs.append(slice(cuts[i], cuts[i + 1], None if rng.random() < 0.6 else 1))
+    rng.shuffle(regs)
     pairs = []
-    for p in range(npairs):
-        rank = rng.choice([1, 1, 2, 2, 3])
-        shape = tuple(0 if rng.random() < 0.04 else rng.randint(1, 6) for _ in range(rank))
-        chunks = [list(gen.rand_chunks(rng, n, zeros=0.08, maxparts=4)) for n in shape]
-        r = rng.random()
-        if r < 0.3:
-            tshape, region = shape, None
+    kind = rng.choice(["numpy", "rec", "file"])
+    for j, r in enumerate(regs):
+        region, shape = [], []
+        for k in range(rank):
+            if k == ax:
+                region.append(r)
+                shape.append(len(range(*r.indices(n))))
+            else:
+                region.append(slice(None) if rng.random() < 0.5 else slice(0, tshape[k]))
+                shape.append(tshape[k])
+        p = {"shape": shape, "chunks": [list(gen.rand_chunks(rng, s, zeros=0.05, maxparts=3)) for s in shape],
+             "tshape": list(tshape), "region": enc_region(tuple(region)),
+             "derived": rng.choice(["none", "none", "add", "rechunk"]), "target": kind}
+        if j:
+            p["tgt_of"] = 0
+        pairs.append(p)
+    return pairs
+
+
+def twin_pairs(rng):
+    """the SAME dask array stored into two (three) targets by one call: identical targets (same shape,
+    same region, same sentinel content), or targets that differ in region / kind"""
+    p = rand_pair(rng)
+    if not region_supported(dec_region(p["region"])):
+        p["region"], p["tshape"] = None, list(p["shape"])
+    out = [p]
+    for _ in range(rng.choice([1, 1, 2])):
+        q = dict(p, src_of=0)
+        v = rng.random()
+        if v < 0.45:
+            pass  # identical twin
+        elif v < 0.75:
+            tshape, region = rand_region(rng, tuple(p["shape"]))
+            q["tshape"], q["region"] = list(tshape), enc_region(region)
         else:
-            tshape, region = rand_region(rng, shape, unsupported=rng.random() < 0.08)
-        pairs.append({"shape": list(shape), "chunks": chunks, "tshape": list(tshape), "region": enc_region(region),
-                      "derived": rng.choice(["none", "none", "add", "slice", "rechunk"]), "numpy_target": rng.random() < 0.3})
-    return {
+            q["target"] = rng.choice([k for k in ("numpy", "rec", "file") if k != p["target"]])
+        out.append(q)
+    return out
+
+
+def gen_case(ctx, force=None):
+    rng = ctx.rng
+    force = force or {}
+    form = force.get("form") or rng.choice(["plain"] * 8 + ["partition", "twins"])
+    if form == "partition":
+        pairs = partition_pairs(rng)
+    elif form == "twins":
+        pairs = twin_pairs(rng)
+    else:
+        kinds = force.get("kinds")
+        npairs = len(kinds) if kinds else rng.choice([1, 1, 1, 2, 3])
+        pairs = [rand_pair(rng) for _ in range(npairs)]
+        if kinds:
+            for p, k in zip(pairs, kinds):
+                p["target"] = k
+    if not pairs:
+        pairs = [rand_pair(rng)]
+    quick_ctx = ["default"] * 4 + ["threads", "sync", "pickling", "pickling", "pickling"]
+    case = {
         "pairs": pairs,
-        "lock": rng.choice(["true", "true", "false", "obj"]),
-        "compute": rng.random() < 0.6,
-        "return_stored": rng.random() < 0.35,
+        "lock": rng.choice(["true", "true", "false", "obj", "ser"]),
+        "compute": force["compute"] if "compute" in force else rng.random() < 0.6,
+        "return_stored": force["return_stored"] if "return_stored" in force else rng.random() < 0.35,
         # explicit load_stored only with its default value (return_stored and not compute); the other
         # combinations are the documented "advanced option ... not what you want" and are not part of the property
         "load_stored": rng.choice([None, None, "default"]),
         "optimize": rng.random() < 0.7,
         "regions_form": rng.choice(["list", "list", "single"]),
         "share_target": False,
+        "sched_ctx": force.get("sched_ctx") or rng.choice(quick_ctx),
+        "sched_kw": force["sched_kw"] if "sched_kw" in force else rng.choice([None, None, None, "threads", "sync"]),
+        "consumer": force.get("consumer") or rng.choice(CONSUMERS),
     }
+    if not scheduler_valid(case):
+        # in-memory targets cannot be written through a serializing scheduler: make the program one the
+        # documentation supports (all file-backed, or one ndarray target that forces the local scheduler)
+        if "kinds" in force:
+            return None
+        fix = rng.choice(["file", "ndarray", "kw"])
+        if fix == "file" or (fix == "kw" and case.get("sched_kw") in SERIALIZING):
+            for p in pairs:
+                p["target"] = "file"
+        elif fix == "ndarray":
+            rng.choice([p for p in pairs if "tgt_of" not in p])["target"] = "numpy"
+            for p in pairs:
+                if "tgt_of" in p:
+                    p["target"] = pairs[p["tgt_of"]]["target"]
+        else:
+            case["sched_kw"] = rng.choice(["threads", "sync"])
+    for p in pairs:
+        if "tgt_of" in p:
+            p["target"] = pairs[p["tgt_of"]]["target"]
+    if not scheduler_valid(case):
+        return None
+    return case
 
 
 def region_supported(r):
@@ -175,49 +363,97 @@ def source_array(k, shape):
     return (np.arange(n, dtype=np.int64) + 1000 * k).reshape(shape)
 
 
+def small(a):
+    return a.tolist() if a.size <= 80 else str(a.shape)
+
+
 def run_case(case, want_logs=False):
     """Run one store program on the real code.  Returns (signature or None, details, logs)."""
+    if not scheduler_valid(case):
+        return "invalid-case", {}, None
+    tmp = None
+    if any(pair_kind(p) == "file" for p in case["pairs"]):
+        tmp = tempfile.mkdtemp(prefix="verif-c25s-", dir=SCRATCH)
+    try:
+        return _run_case(case, tmp)
+    finally:
+        if tmp is not None:
+            shutil.rmtree(tmp, ignore_errors=True)
+
+
+def _run_case(case, tmp):
     import dask
     import dask_array as da
+    from dask.utils import SerializableLock
 
-    srcs, tgts, regions, datas, exps = [], [], [], [], []
+    srcs, tgts, regions, datas, kinds, owner = [], [], [], [], [], []
+    exps = {}
+    valid = True
     for k, p in enumerate(case["pairs"]):
         shape = tuple(p["shape"])
-        data = source_array(k, shape)
         chunks = tuple(tuple(c) for c in p["chunks"])
-        if p["derived"] == "slice":
-            big = np.concatenate([data, data[:1]], axis=0) if data.shape[0] else data
-            d = da.from_array(big, chunks=big.shape)[: data.shape[0]].rechunk(chunks)
-        elif p["derived"] == "add":
-            d = da.from_array(data - 5, chunks=chunks) + 5
-        elif p["derived"] == "rechunk":
-            d = da.from_array(data, chunks=data.shape).rechunk(chunks)
+        so = p.get("src_of")
+        if so is not None:
+            d, data = srcs[so], datas[so]
         else:
-            d = da.from_array(data, chunks=chunks)
+            data = source_array(k, shape)
+            if p["derived"] == "slice":
+                big = np.concatenate([data, data[:1]], axis=0) if data.shape[0] else data
+                d = da.from_array(big, chunks=big.shape)[: data.shape[0]].rechunk(chunks)
+            elif p["derived"] == "add":
+                d = da.from_array(data - 5, chunks=chunks) + 5
+            elif p["derived"] == "rechunk":
+                d = da.from_array(data, chunks=data.shape).rechunk(chunks)
+            else:
+                d = da.from_array(data, chunks=chunks)
         region = dec_region(p["region"])
         tshape = tuple(p["tshape"])
-        t = np.full(tshape, SENTINEL, dtype=np.int64) if p["numpy_target"] else RecTarget(tshape)
-        exp = np.full(tshape, SENTINEL, dtype=np.int64)
+        to = p.get("tgt_of")
+        if to is not None:
+            t, own, kind = tgts[to], owner[to], kinds[to]
+        else:
+            kind, own = pair_kind(p), k
+            if kind == "numpy":
+                t = np.full(tshape, SENTINEL, dtype=np.int64)
+            elif kind == "file":
+                t = FileTarget(os.path.join(tmp, f"t{k}.npy"), tshape)
+            else:
+                t = RecTarget(tshape)
+            exps[own] = np.full(tshape, SENTINEL, dtype=np.int64)
+        exp = exps[own]
         try:
             if region is None:
                 exp[...] = data
+                valid = valid and exp.shape == data.shape
             else:
+                if to is not None and (exp[region] != SENTINEL).any():
+                    valid = False  # regions of one target must be disjoint
                 exp[region] = data
-            valid = exp[region].shape == data.shape if region is not None else True
+                valid = valid and exp[region].shape == data.shape
         except Exception:  # noqa: BLE001
             valid = False
         srcs.append(d)
         tgts.append(t)
         regions.append(region)
         datas.append(data)
-        exps.append(exp if valid else None)
-    if any(e is None for e in exps):
+        kinds.append(kind)
+        owner.append(own)
+    if not valid:
         return "invalid-case", {}, None
     supported = all(region_supported(r) for r in regions)
-    lock = {"true": True, "false": False, "obj": threading.Lock()}[case["lock"]]
+    ctxname = case.get("sched_ctx", "default")
+    serial_ctx = ctxname in SERIALIZING
+    pickled = serial_ctx or case.get("sched_kw") in SERIALIZING
+    lock = {"true": True, "false": False, "obj": SerializableLock() if pickled else threading.Lock(),
+            "ser": SerializableLock()}[case["lock"]]
     kwargs = {"lock": lock, "compute": case["compute"], "return_stored": case["return_stored"]}
     if case["load_stored"] == "default":
         kwargs["load_stored"] = bool(case["return_stored"] and not case["compute"])
+    if case["compute"] and case.get("sched_kw") is not None:
+        kwargs["scheduler"] = SCHED_KW[case["sched_kw"]]
+    # computes issued by the harness itself (compute=False): the caller of a lazy store into in-memory
+    # targets has to pick a local scheduler
+    hk = {"scheduler": "sync"} if (serial_ctx and any(k != "file" for k in kinds)) else {}
     single = len(srcs) == 1 and case["regions_form"] == "single"
     if all(r is None for r in regions):
         regs = None
@@ -225,20 +461,52 @@ def run_case(case, want_logs=False):
         regs = regions[0]
     else:
         regs = list(regions)
-    raw = lambda t: t.a if isinstance(t, RecTarget) else t  # noqa: E731
-    with dask.config.set({"array.optimize-graph": bool(case["optimize"])}):
+    consumer_bad = None
+    with dask.config.set({"array.optimize-graph": bool(case["optimize"]), **SCHED_CTX[ctxname]}):
         try:
             res = da.store(srcs[0] if single else srcs, tgts[0] if single else tgts, regions=regs, **kwargs)
             if not case["compute"] and not case["return_stored"]:
                 # lazily built: nothing may have been written yet
                 lazy_clean = all((raw(t) == SENTINEL).all() for t in tgts)
-                dask.compute(res)
+                dask.compute(res, **hk)
             else:
                 lazy_clean = True
             stored = None
             if case["return_stored"]:
                 arrs = (res,) if not isinstance(res, tuple) else res
-                stored = [np.asarray(a.compute()) for a in arrs]
+                lazy = not case["compute"]
+                stored = [np.asarray(a.compute(**(hk if lazy else {}))) for a in arrs]
+                cons = case.get("consumer", "compute")
+                if cons != "compute" and not lazy:
+                    # the returned arrays are ordinary arrays: further operations read the stored data
+                    for k, (a, data) in enumerate(zip(arrs, datas)):
+                        if a.ndim == 0 or 0 in data.shape:
+                            continue
+                        try:
+                            if cons == "slice":
+                                ix = tuple(slice(0, max(1, n - 1)) for n in data.shape)
+                                got, want = np.asarray(a[ix].compute()), data[ix]
+                            elif cons == "step":
+                                ix = tuple(slice(None, None, 2) for n in data.shape)
+                                got, want = np.asarray(a[ix].compute()), data[ix]
+                            elif cons == "int":
+                                got, want = np.asarray(a[data.shape[0] // 2].compute()), data[data.shape[0] // 2]
+                            elif cons == "fancy":
+                                ix = [data.shape[0] - 1, 0, data.shape[0] // 2]
+                                got, want = np.asarray(a[ix].compute()), data[ix]
+                            elif cons == "add":
+                                got, want = np.asarray((a + 1).sum(axis=0).compute()), (data + 1).sum(axis=0)
+                            elif cons == "rechunk":
+                                got, want = np.asarray(a.rechunk(data.shape).compute()), data
+                            else:
+                                got, want = np.asarray(a.T.compute()), data.T
+                        except Exception as e:  # noqa: BLE001
+                            # the store itself and the full read-back succeeded; an operation on the returned array fails
+                            consumer_bad = {"pair": k, "consumer": cons, "error": repr(e)[:300], "raises": type(e).__name__}
+                            break
+                        if got.shape != want.shape or not np.array_equal(got, want):
+                            consumer_bad = {"pair": k, "consumer": cons, "got": small(got), "want": small(want)}
+                            break
         except Exception as e:  # noqa: BLE001
             if supported:
                 if isinstance(e, NotImplementedError):
@@ -246,29 +514,47 @@ def run_case(case, want_logs=False):
                 return f"raises:{type(e).__name__}", {"error": repr(e)[:300]}, None
             # an unsupported region is refused when its first block executes; blocks of the OTHER pairs
             # may already have been written - every written position must still hold the right value
-            for k, (t, exp) in enumerate(zip(tgts, exps)):
-                got = raw(t)
-                bad_region = not region_supported(regions[k])
-                ok = (got == SENTINEL).all() if bad_region else ((got == SENTINEL) | (got == exp)).all()
+            for own, exp in exps.items():
+                got = raw(tgts[own])
+                bad_region = any(not region_supported(regions[k]) for k in range(len(tgts)) if owner[k] == own)
+                ok = (got == SENTINEL).all() if bad_region and sum(1 for o in owner if o == own) == 1 else ((got == SENTINEL) | (got == exp)).all()
                 if not ok:
-                    return "wrong-write-before-refusal", {"pair": k, "error": repr(e)[:200], "got": got.tolist() if got.size <= 80 else str(got.shape)}, None
+                    return "wrong-write-before-refusal", {"pair": own, "error": repr(e)[:200], "got": small(got)}, None
             return None, {"refused": True, "error": type(e).__name__}, None
-    logs = [(t.wlog, t.rlog) if isinstance(t, RecTarget) else None for t in tgts]
-    for k, (t, exp, data) in enumerate(zip(tgts, exps, datas)):
-        got = raw(t)
+    shared = len(set(owner)) < len(owner)
+    logs = [(t.wlog, t.rlog) if isinstance(t, RecTarget) and not shared else None for t in tgts]
+    for own, exp in exps.items():
+        got = raw(tgts[own])
         if not np.array_equal(got, exp):
+            writers = [k for k in range(len(tgts)) if owner[k] == own]
             wrong_inside = False
-            r = regions[k]
-            inside = got[r] if r is not None else got
-            wrong_inside = inside.shape != data.shape or not np.array_equal(inside, data)
+            for k in writers:
+                r = regions[k]
+                inside = got[r] if r is not None else got
+                if inside.shape != datas[k].shape or not np.array_equal(inside, datas[k]):
+                    wrong_inside = True
             sig = "written-values" if wrong_inside else "outside-region-touched"
-            return sig, {"pair": k, "got": got.tolist() if got.size <= 80 else str(got.shape), "want": exp.tolist() if exp.size <= 80 else str(exp.shape)}, logs
+            if wrong_inside and (got == SENTINEL).all():
+                sig = "target-untouched"
+                # narrow class: the same dask array stored into several targets that are indistinguishable by
+                # content (same kind, shape, region, sentinel fill) - only one of them is written
+                twins = [j for j in range(len(tgts)) if j != own and len(writers) == 1 and srcs[j] is srcs[own]
+                         and kinds[j] == kinds[own] != "file" and case["pairs"][j]["tshape"] == case["pairs"][own]["tshape"]
+                         and case["pairs"][j]["region"] == case["pairs"][own]["region"] and owner[j] == j]
+                if twins and any(np.array_equal(raw(tgts[j]), exps[j]) for j in twins):
+                    sig = "same-source-identical-targets-written-once"
+            return sig, {"pair": own, "got": small(got), "want": small(exp)}, logs
     if not supported:
         return "unsupported-region-accepted-correctly", {}, logs  # not a failure: handled by caller
     if stored is not None:
         for k, (s, data) in enumerate(zip(stored, datas)):
             if s.shape != data.shape or not np.array_equal(s, data):
-                return "return_stored-values", {"pair": k, "got": s.tolist() if s.size <= 80 else str(s.shape), "want": data.tolist() if data.size <= 80 else str(data.shape)}, logs
+                return "return_stored-values", {"pair": k, "got": small(s), "want": small(data)}, logs
+    if consumer_bad is not None:
+        if "raises" in consumer_bad:
+            kind = "index" if consumer_bad["consumer"] in ("slice", "step", "int", "fancy") else consumer_bad["consumer"]
+            return f"return_stored-then-{kind}:raises:{consumer_bad['raises']}", consumer_bad, logs
+        return "return_stored-consumer-values", consumer_bad, logs
     if not lazy_clean:
         return "compute=False-wrote-eagerly", {}, logs
     return None, {}, logs
@@ -291,14 +577,24 @@ def shrink(case, sig, budget=80):
         changed = False
         if len(best["pairs"]) > 1:
             for i in range(len(best["pairs"])):
-                c = dict(best, pairs=best["pairs"][:i] + best["pairs"][i + 1:])
+                if any(q.get("src_of") == i or q.get("tgt_of") == i for q in best["pairs"]):
+                    continue
+                rest = []
+                for q in best["pairs"][:i] + best["pairs"][i + 1:]:
+                    q = dict(q)
+                    for key in ("src_of", "tgt_of"):
+                        if q.get(key) is not None and q[key] > i:
+                            q[key] -= 1
+                    rest.append(q)
+                c = dict(best, pairs=rest)
                 if still(c):
                     best, changed = c, True
                     break
             if changed:
                 continue
-        for k, v in (("lock", "false"), ("compute", True), ("return_stored", False), ("load_stored", None), ("optimize", True)):
-            if best.get(k) != v:
+        for k, v in (("sched_kw", None), ("sched_ctx", "default"), ("lock", "false"), ("compute", True), ("return_stored", False),
+                     ("load_stored", None), ("optimize", True), ("consumer", "compute")):
+            if best.get(k, v) != v:
                 c = dict(best, **{k: v})
                 if still(c):
                     best, changed = c, True
@@ -306,8 +602,17 @@ def shrink(case, sig, budget=80):
         if changed:
             continue
         for i, p in enumerate(best["pairs"]):
-            for k, v in (("derived", "none"), ("numpy_target", True), ("chunks", [[n] for n in p["shape"]])):
-                if p.get(k) != v:
+            linked = "tgt_of" in p or any(q.get("tgt_of") == i or q.get("src_of") == i for q in best["pairs"]) or p.get("src_of") is not None
+            for k, v in (("derived", "none"), ("target", "numpy"), ("chunks", [[n] for n in p["shape"]]), ("region", None)):
+                if k in ("target", "region") and linked:
+                    continue
+                if k == "region" and p.get("region") is not None:
+                    c = dict(best, pairs=best["pairs"][:i] + [dict(p, region=None, tshape=list(p["shape"]))] + best["pairs"][i + 1:])
+                    if still(c):
+                        best, changed = c, True
+                        break
+                    continue
+                if (pair_kind(p) if k == "target" else p.get(k)) != v:
                     c = dict(best, pairs=best["pairs"][:i] + [dict(p, **{k: v})] + best["pairs"][i + 1:])
                     if still(c):
                         best, changed = c, True
@@ -350,7 +655,7 @@ def corr_from_logs(case, logs):
             continue
         wlog, _ = logs[k]
         shape = tuple(p["shape"])
-        data = source_array(k, shape)
+        data = source_array(k if p.get("src_of") is None else p["src_of"], shape)
         region = dec_region(p["region"])
         by_first = {}
         # assignments to an empty selection touch nothing (a one-element source whose zero-length chunks were
@@ -450,6 +755,65 @@ def rand_npy_spec(rng, salt=3):
             "derived": rng.random() < 0.3, "optimize": rng.random() < 0.7}
 
 
+EXTRA_NAMES = ("00.npy", "01.npy", "-1.npy", "1e1.npy", "a.npy", "info.npy", "0.npy.bak", "notes.txt", ".hidden.npy", "0_.npy", "+", "++")
+
+
+def rand_npy_many(rng, salt=3, huge=False):
+    """MANY blocks along the stacking axis (file names with two / three digits), ragged block sizes, every axis"""
+    rank = rng.randint(1, 3)
+    axis = rng.randint(0, rank - 1)
+    nb = rng.choice([101, 110, 112]) if huge else rng.choice([11, 11, 12, 12, 13, 15, 20, 21, 23, 23, 25, 30])
+    style = rng.random()
+    if style < 0.25:
+        sizes = [rng.randint(1, 2)] * nb  # equal blocks: a permutation is silent
+    else:
+        sizes = [0 if rng.random() < 0.04 else rng.randint(1, 3) for _ in range(nb)]
+    if huge:
+        sizes = [1 if rng.random() < 0.8 else 2 for _ in range(nb)]
+    chunks, shape = [], []
+    for k in range(rank):
+        if k == axis:
+            chunks.append(sizes)
+            shape.append(sum(sizes))
+        else:
+            m = rng.randint(1, 3)
+            chunks.append(list(gen.rand_chunks(rng, m, maxparts=2)))
+            shape.append(m)
+    return {"shape": shape, "chunks": chunks, "axis": axis, "dtype": rng.choice(NPY_DTYPES), "salt": salt,
+            "mmap_mode": rng.choice(["r", None]), "derived": rng.random() < 0.3, "optimize": rng.random() < 0.7,
+            "probe_block": rng.randint(0, nb - 1)}
+
+
+def with_extras(rng, spec):
+    """files that do not belong to the stack, present before or appearing after the write"""
+    nb = len(spec["chunks"][spec["axis"]])
+    names = list(EXTRA_NAMES) + [f"{nb}.npy", f"{nb + rng.randint(1, 9)}.npy", f"{nb * 10}.npy"]
+    extras = []
+    for _ in range(rng.randint(1, 3)):
+        nm = rng.choice(names)
+        if nm == "+":
+            nm = f"0{rng.randint(0, nb - 1)}.npy"  # sorts next to a real block
+        elif nm == "++":
+            nm = f"{rng.randint(0, nb - 1)}.0.npy"
+        if nm not in [e[0] for e in extras]:
+            extras.append([nm, rng.choice(["before", "after"])])
+    return dict(spec, extra_files=extras)
+
+
+def write_extras(dirname, spec, when):
+    for nm, w in spec.get("extra_files") or []:
+        if w != when:
+            continue
+        os.makedirs(dirname, exist_ok=True)
+        path = os.path.join(dirname, nm)
+        if nm.endswith(".npy"):
+            with open(path, "wb") as f:  # a valid array of another shape / dtype: silently loadable
+                np.save(f, np.full((7, 1), 77777, dtype=np.int32))
+        else:
+            with open(path, "wb") as f:
+                f.write(b"not part of the stack")
+
+
 def npy_roundtrip(ctx, n):
     """single round trips into fresh directories, and HISTORIES that write 2-3 different arrays
     (shape / chunking / dtype / axis all change) into ONE directory, reading back after every write;
@@ -457,20 +821,46 @@ def npy_roundtrip(ctx, n):
     rng = ctx.rng
     pairs = []
     cases = []
+    shrunk = set()  # minimise the first failure of each signature only
     for _ in range(n // 2):
         cases.append({"kind": "npy_history", "steps": [rand_npy_spec(rng)], "reuse": False, "hold": False})
     for _ in range(max(1, n // 5)):
         steps = [rand_npy_spec(rng, salt=3 + k) for k in range(rng.randint(2, 3))]
         r = rng.random()
         cases.append({"kind": "npy_history", "steps": steps, "reuse": r < 0.8, "hold": r < 0.3})
+    # many blocks (two-digit file names) along every axis of rank 1-3 arrays; a few with three-digit names
+    many = 0
+    for j in range(max(6, n // 3)):
+        spec = rand_npy_many(rng)
+        if j % 3 == 2:
+            spec = with_extras(rng, spec)
+        cases.append({"kind": "npy_history", "steps": [spec], "reuse": False, "hold": False})
+        many += 1
+    for _ in range(ctx.scale(2, 10)):
+        cases.append({"kind": "npy_history", "steps": [rand_npy_many(rng, huge=True)], "reuse": False, "hold": False})
+        many += 1
+    # small stacks in directories that hold unrelated files
+    for _ in range(max(4, n // 5)):
+        cases.append({"kind": "npy_history", "steps": [with_extras(rng, rand_npy_spec(rng))], "reuse": False, "hold": False})
+    # histories in one directory mixing long and short stacks (a shorter stack leaves the longer one's files behind)
+    for _ in range(max(3, n // 10)):
+        steps = [rand_npy_many(rng, salt=3 + k) if rng.random() < 0.6 else rand_npy_spec(rng, salt=3 + k) for k in range(rng.randint(2, 3))]
+        if rng.random() < 0.3:
+            steps[-1] = with_extras(rng, steps[-1])
+        r = rng.random()
+        cases.append({"kind": "npy_history", "steps": steps, "reuse": r < 0.85, "hold": r < 0.2})
+        many += 1
+    ctx.notes["npy_many_block_cases"] = many
     for case in cases:
         sig, det, reqs = run_npy(case)
         st = case["steps"]
         ctx.count(("npy", len(st), case["reuse"], case["hold"], tuple(len(x["shape"]) for x in st),
-                   tuple(x["axis"] for x in st), len({x["dtype"] for x in st}) > 1, st[-1]["mmap_mode"]))
+                   tuple(x["axis"] for x in st), len({x["dtype"] for x in st}) > 1, st[-1]["mmap_mode"],
+                   tuple(min(3, len(str(len(x["chunks"][x["axis"]]) - 1))) for x in st), any(x.get("extra_files") for x in st)))
         pairs.extend(reqs)
         if sig is not None:
-            small = npy_shrink(case, sig)
+            small = npy_shrink(case, sig) if sig not in shrunk else case
+            shrunk.add(sig)
             s2, d2, _ = run_npy(small)
             if s2 != sig:
                 small, d2 = case, det
@@ -486,8 +876,41 @@ def npy_shrink(case, sig):
     best = case
     changed = True
     tries = 0
-    while changed and tries < 30:
+
+    def trim(st, m):
+        ax = st["axis"]
+        cks = [list(c) for c in st["chunks"]]
+        cks[ax] = cks[ax][:m]
+        shape = list(st["shape"])
+        shape[ax] = sum(cks[ax])
+        return dict(st, chunks=cks, shape=shape, probe_block=None)
+
+    while changed and tries < 60:
         changed = False
+        for i, st in enumerate(best["steps"]):
+            nb = len(st["chunks"][st["axis"]])
+            for m in (nb // 2, nb - 4, nb - 1):
+                if 1 <= m < nb:
+                    c = dict(best, steps=best["steps"][:i] + [trim(st, m)] + best["steps"][i + 1:])
+                    tries += 1
+                    if run_npy(c)[0] == sig:
+                        best, changed = c, True
+                        break
+            if changed:
+                break
+        if changed:
+            continue
+        for i, st in enumerate(best["steps"]):
+            ax = st["axis"]
+            unit = [[1] * len(c) if k == ax else [1] for k, c in enumerate(st["chunks"])]
+            if [list(c) for c in st["chunks"]] != unit and len(unit[ax]) > 1:
+                c = dict(best, steps=best["steps"][:i] + [dict(st, chunks=unit, shape=[len(c) for c in unit], probe_block=None)] + best["steps"][i + 1:])
+                tries += 1
+                if run_npy(c)[0] == sig:
+                    best, changed = c, True
+                    break
+        if changed:
+            continue
         for i in range(len(best["steps"]) - 1):
             c = dict(best, steps=best["steps"][:i] + best["steps"][i + 1:])
             tries += 1
@@ -497,7 +920,7 @@ def npy_shrink(case, sig):
         if changed:
             continue
         for i, st in enumerate(best["steps"]):
-            for k, v in (("derived", False), ("mmap_mode", None), ("optimize", True), ("chunks", [[n] for n in st["shape"]])):
+            for k, v in (("extra_files", None), ("derived", False), ("mmap_mode", None), ("optimize", True), ("chunks", [[n] for n in st["shape"]])):
                 if st.get(k) != v:
                     c = dict(best, steps=best["steps"][:i] + [dict(st, **{k: v})] + best["steps"][i + 1:])
                     tries += 1
@@ -527,13 +950,16 @@ def npy_step(dirname, spec, fresh):
     req = None
     with dask.config.set({"array.optimize-graph": bool(spec.get("optimize", True))}):
         try:
+            write_extras(dirname, spec, "before")
             da.to_npy_stack(dirname, d, axis=axis)
+            write_extras(dirname, spec, "after")
             with open(os.path.join(dirname, "info"), "rb") as f:
                 info = pickle.load(f)
             req = (f"io.npy_chunks {f_ll(chunks)} {axis}", "ok " + f_ll(info["chunks"]))
             if info.get("axis") != axis or np.dtype(info.get("dtype")) != data.dtype:
                 return "info-file", {"info": repr(info)[:200]}, req, None
-            files = sorted(f for f in os.listdir(dirname) if f.endswith(".npy"))
+            extra = {e[0] for e in spec.get("extra_files") or []}
+            files = sorted(f for f in os.listdir(dirname) if f.endswith(".npy") and f not in extra)
             expect = [f"{i}.npy" for i in range(len(chunks[axis]))]
             # a reused directory may keep higher-numbered files of an earlier, longer stack (never read)
             if (sorted(expect) != files) if fresh else (not set(expect) <= set(files)):
@@ -558,6 +984,14 @@ def npy_step(dirname, spec, fresh):
                 ix = tuple(slice(0, max(1, s - 1)) for s in shape)
                 if not np.array_equal(np.asarray(y[ix].compute()), data[ix]):
                     return "values-sliced", {}, req, y
+            pb = spec.get("probe_block")
+            if pb is not None and pb < len(chunks[axis]):
+                # exactly one block of the stack, selected by its position along the axis
+                lo = sum(chunks[axis][:pb])
+                ix = tuple(slice(lo, lo + chunks[axis][pb]) if k == axis else slice(None) for k in range(len(shape)))
+                one = np.asarray(y[ix].compute())
+                if one.shape != data[ix].shape or not np.array_equal(one, data[ix]):
+                    return "values-one-block", {"block": pb, "got": one.tolist() if one.size <= 60 else str(one.shape)}, req, y
             return None, {}, req, y
         except Exception as e:  # noqa: BLE001
             return f"raises:{type(e).__name__}", {"error": repr(e)[:300]}, req, None
@@ -571,7 +1005,7 @@ def run_npy(case):
 
     if case.get("kind") == "npy_stack" or "steps" not in case:
         case = {"steps": [dict(case, dtype="int64", salt=3)], "reuse": False, "hold": False}
-    tmp = tempfile.mkdtemp(prefix="verif-c25-", dir="/tmp")
+    tmp = tempfile.mkdtemp(prefix="verif-c25-", dir=SCRATCH)
     reqs = []
     held = []
     try:
@@ -600,30 +1034,97 @@ def run_npy(case):
 
 # --------------------------------------------------------------------------- entry
 
+CONSUMERS = ("compute", "compute", "slice", "step", "int", "fancy", "add", "rechunk", "transpose")
+
+
+def regression_programs():
+    """fixed programs for defects repaired in the repository (kept as regression cases, run first in every tier)"""
+    base = {"lock": "false", "compute": True, "return_stored": False, "load_stored": None, "optimize": True, "regions_form": "list",
+            "share_target": False, "sched_ctx": "default", "sched_kw": None, "consumer": "compute"}
+    out = []
+    # a4b46e7: the same array into two targets of identical content wrote only the first
+    for kind in ("numpy", "rec"):
+        for compute in (True, False):
+            p = {"shape": [6], "chunks": [[2, 2, 2]], "tshape": [6], "region": None, "derived": "none", "target": kind}
+            out.append(dict(base, compute=compute, pairs=[p, dict(p, src_of=0)]))
+            out.append(dict(base, compute=compute, pairs=[p, dict(p, src_of=0), dict(p, src_of=0)]))
+    # 3422420: indexing the array returned by return_stored=True raised AttributeError (ArraySliceDep operand)
+    for chunks in ([3, 2], [5], [2, 2, 1]):
+        for cons in ("slice", "step", "int", "fancy"):
+            for optimize in (True, False):
+                p = {"shape": [5], "chunks": [chunks], "tshape": [5], "region": None, "derived": "none", "target": "numpy"}
+                out.append(dict(base, return_stored=True, consumer=cons, optimize=optimize, pairs=[p]))
+    return out
+
+
+GRID_KINDS = (("numpy",), ("file",), ("rec",), ("numpy", "numpy"), ("numpy", "file"), ("file", "numpy"), ("file", "file"),
+              ("rec", "numpy"), ("numpy", "rec"), ("rec", "file"), ("rec", "rec"), ("file", "numpy", "rec"), ("numpy", "file", "file"))
+
+
+def grid_forces(ctx):
+    """every scheduler context x every mix of target kinds x explicit scheduler= x compute x return_stored
+    (programs the documentation does not support - in-memory targets through a serializing scheduler - are
+    dropped by gen_case); real process pools only in the thorough tier, on a small sub-grid"""
+    out = []
+    for sc in ("default", "threads", "sync", "pickling"):
+        for kinds in GRID_KINDS:
+            for kw in (None, "sync", "threads", "pickling"):
+                for compute in (True, False):
+                    for rs in (False, True):
+                        if kw is not None and not compute:
+                            continue  # scheduler= is only used by compute=True
+                        out.append({"form": "plain", "sched_ctx": sc, "kinds": kinds, "sched_kw": kw, "compute": compute, "return_stored": rs})
+    if ctx.tier == "thorough":
+        for kinds in GRID_KINDS:
+            for rs in (False, True):
+                out.append({"form": "plain", "sched_ctx": "processes", "kinds": kinds, "sched_kw": None, "compute": True, "return_stored": rs})
+        for kinds in (("file",), ("file", "file")):
+            out.append({"form": "plain", "sched_ctx": "default", "kinds": kinds, "sched_kw": "processes", "compute": True, "return_stored": False})
+    for form in ("partition", "twins"):
+        for sc in ("default", "threads", "sync", "pickling"):
+            for compute in (True, False):
+                for _ in range(ctx.scale(3, 12)):
+                    out.append({"form": form, "sched_ctx": sc, "compute": compute})
+    return out
+
+
 def search(ctx):
     n = ctx.scale(1500, 20000)
-    budget = ctx.scale(25, 330)
+    budget = ctx.scale(24, 330)
     t0 = ctx.elapsed()
     done = 0
     shrunk = set()  # minimise the first failure of each signature only
     corr = []
     refused = accepted_unsupported = 0
-    for _ in range(n):
-        if ctx.elapsed() - t0 > budget:
+    refusal_example = None
+    forces = grid_forces(ctx)
+    ctx.notes["store_grid_programs"] = len(forces)
+    regress = regression_programs()
+    ctx.notes["store_regression_programs"] = len(regress)
+    for force in regress + forces + [None] * n:
+        if force is None and ctx.elapsed() - t0 > budget:
             break
-        case = gen_case(ctx)
+        case = force if (force is not None and "pairs" in force) else gen_case(ctx, force)
+        if case is None:
+            continue
         sig, det, logs = run_case(case)
         if sig == "invalid-case":
             continue
         done += 1
         if det.get("refused"):
             refused += 1
+            if refusal_example is None or len(case["pairs"]) < len(refusal_example["pairs"]):
+                refusal_example = case
         if sig == "unsupported-region-accepted-correctly":
             accepted_unsupported += 1
             sig = None
+        kinds = tuple(pair_kind(p) for p in case["pairs"])
         ctx.count((len(case["pairs"]), case["lock"], case["compute"], case["return_stored"], case["load_stored"], case["optimize"],
                    tuple(sorted({p["derived"] for p in case["pairs"]})), any(p["region"] is not None for p in case["pairs"]),
                    bool(det.get("refused"))))
+        ctx.count(("sched", case["sched_ctx"], case["sched_kw"], kinds, case["compute"], case["return_stored"]), n=0)
+        ctx.count(("form", any("tgt_of" in p for p in case["pairs"]), any(p.get("src_of") is not None for p in case["pairs"]),
+                   case["sched_ctx"], case["consumer"] if case["return_stored"] and case["compute"] else None), n=0)
         if done % 89 == 0:
             ctx.sample({"program": case, "outcome": sig or "ok"})
         if sig is None and logs is not None and len(corr) < ctx.scale(4000, 40000):
@@ -638,6 +1139,8 @@ def search(ctx):
                      "da.store result differs from NumPy slice assignment into a sentinel-filled target")
     ctx.notes["store_programs"] = done
     ctx.notes["store_refusals_of_unsupported_regions"] = refused
+    if refusal_example is not None:
+        ctx.notes["store:negative-region-refused(example)"] = refusal_example
     ctx.notes["unsupported_regions_written_correctly"] = accepted_unsupported
     return corr
 
@@ -695,17 +1198,30 @@ def run(ctx, replay=None):
         "search: seeded random da.store programs: 1-3 source/target pairs (rank 1-3, axis <= 6, zero-length chunks, sources "
         "plain / elemwise / sliced / rechunked), targets NumPy or recording array-likes filled with a sentinel, regions None or "
         "tuples of slices with offsets, steps 1-3, open stops, integer entries, 8% unsupported (negative start/stop/step: must "
-        "raise or write correctly), lock True/False/Lock, compute, return_stored, load_stored, optimize on/off; "
+        "raise or write correctly), lock True/False/Lock/SerializableLock, compute, return_stored (full read-back, then slice / step / "
+        "elemwise+reduce / rechunk / transpose of the returned array), load_stored, optimize on/off; target kinds ndarray / in-memory "
+        "recording object / file-backed object (pickles by path) in every mix; ambient scheduler default / threads / sync / a "
+        "deterministic callable that round-trips graph and results through cloudpickle (thorough: real `processes`), explicit "
+        "scheduler= None/threads/sync/serializing - as a full grid (context x target mix x scheduler= x compute x return_stored) "
+        "plus random; programs the documentation excludes (in-memory non-ndarray target written through a serializing scheduler "
+        "without any ndarray target) are not generated; several sources into pairwise disjoint regions (slabs, interleaved strides) "
+        "of ONE target; the SAME array into two or three targets (identical / other region / other kind); "
         "to_npy_stack/from_npy_stack over every axis, chunkings with zero-length chunks, dtypes, mmap modes, as single round "
         "trips and as histories of 2-3 different arrays written into ONE directory (on-disk files, metadata and read-back "
-        "checked after every write; earlier arrays released or still referenced; fresh-directory controls). distinct by (pairs, lock, "
+        "checked after every write; earlier arrays released or still referenced; fresh-directory controls); stacks of 11-30 and "
+        "101-112 blocks (two / three digit file names; equal or ragged block sizes; every axis of rank 1-3; single-block read by "
+        "position), directories holding unrelated files (*.npy with look-alike names such as 00.npy / 1e1.npy / <nblocks>.npy, other "
+        "files; present before or appearing after the write), long and short stacks alternating in one directory. distinct by (pairs, lock, "
         "compute, return_stored, load_stored, optimize, source kinds, regions present, refused). correspondence: write index of "
         "every block actually written (identified by content) and direct load_store_chunk / fuse_slice calls vs the model"
     )
     ctx.assumptions = [
         "NumPy slice assignment `out[index] = x` writes x[j] to the j-th position selected by index on every axis (per-axis product)",
         "target[region].shape == source.shape (documented precondition of store)",
-        "local scheduler (in-place writes reach the caller's target)",
+        "in-place writes reach the caller's in-memory target only on a local scheduler; documented rule checked here: without scheduler= "
+        "and under a serializing ambient scheduler, store runs locally iff SOME target is an ndarray; file-backed targets are written by "
+        "path from anywhere; a lazily built store (compute=False) into in-memory targets is computed by the harness on a local scheduler",
+        "files in a stack directory other than info and 0.npy .. (nblocks-1).npy do not belong to the stack",
     ]
     if replay is not None:
         case = replay.get("case", replay)
